@@ -275,6 +275,7 @@ def step (s : St) (ws : List String) : St × String :=
         | none => (s, "bad node")
       | none => (s, "bad node")
     | _, _, _ => (s, "bad axis")
+  | "build" :: _ => (s, "-")      -- trees built from events: checked by the oracle of the check, not modelled
   | "xp" :: _ => (s, "-")
   | "xpu" :: rest =>
     match splitSemi rest with
